@@ -1239,7 +1239,7 @@ def main(argv: List[str]) -> int:
         "simulated_time": "none: no clock is read; a history is a sequence of file states and process lifetimes",
         "determinism": {"rerun_other_worker_count": det_checked, "mismatches": det_mismatch},
         "real_vs_stub": {"real": ["generator.model (create_lsp_model, every node class and __eq__)", "generator CLI incl. jsonschema gate and all four plugins for gate runs", "lsp.schema.json"],
-                         "simulated": ["model file contents over time (edits, splits, torn/flipped/zeroed/duplicated/unreadable files)", "hash seed, uuid stream, listing order of gate invocations"],
+                         "simulated": ["model file contents over time (edits, splits, torn/flipped/zeroed/duplicated/unreadable files, a file rewritten between two reads of it)", "hash seed, uuid stream, listing order, python -O, locale, clock, machine identity and tools on PATH of gate invocations", "model paths through symlinks, `..` and names with glob/shell/whitespace/unicode characters"],
                          "stub": [], "oracle": "reference validator = same schema with root #/definitions/MetaModel; generic attrs read-back; annotation-stripping structural comparison"},
         "violation_signatures": sorted(first_fail),
     }
